@@ -15,6 +15,10 @@ pub struct Case {
     pub cloud: bool,
     pub anchors: bool,
     pub ops: Vec<Op>,
+    /// the node persists through vls-persist's BackupPersister (main + backup store); after every
+    /// request a signer restored from the BACKUP store alone is compared as well
+    #[serde(default)]
+    pub backup: bool,
 }
 
 pub struct C11;
@@ -53,10 +57,15 @@ impl Prop for C11 {
     }
     fn strategy(&self, tier: Tier) -> BoxedStrategy<Case> {
         let n = tier.pick(30usize, 80usize);
-        (prop::bool::weighted(0.3), any::<bool>(), proptest::collection::vec(op_strat(false), 1..n)).prop_map(|(cloud, anchors, ops)| Case { cloud, anchors, ops }).boxed()
+        (prop::bool::weighted(0.3), any::<bool>(), proptest::collection::vec(op_strat(false), 1..n), prop::bool::weighted(0.25))
+            .prop_map(|(cloud, anchors, ops, backup)| Case { cloud: cloud && !backup, anchors, ops, backup })
+            .boxed()
     }
     fn run(&self, case: &Case, st: &mut CaseStats, ctx: &Ctx) -> Result<(), Violation> {
-        let mut m = Machine::new(case.cloud, case.anchors);
+        let mut m = Machine::new_mode(case.cloud, case.backup, case.anchors);
+        if case.backup {
+            st.class("backup_persister_history");
+        }
         let mut trace = vec![];
         let mut prim: Vec<Op> = vec![];
         for op in case.ops.iter() {
@@ -130,6 +139,44 @@ impl Prop for C11 {
                 st.class("history_truncated_after_known_finding");
                 m.dead = true;
                 break;
+            }
+            if case.backup {
+                let twin_b = match m.w.restore_twin_from_backup() {
+                    Out::Ok(node2) => observe(&node2),
+                    o => {
+                        ctx.report(st, Violation::new(
+                            format!("C11:restore-from-backup-failed:{}", r.kind),
+                            format!("step {} {:?}: a signer could not be restored from the backup store alone: {}", i, op, o.err_msg()),
+                        ))?;
+                        m.dead = true;
+                        break;
+                    }
+                };
+                let mut diffs: Vec<String> = vec![];
+                for (k, v) in live.channels.iter() {
+                    match twin_b.channels.get(k) {
+                        Some(v2) => diff_values("channel", v, v2, &mut diffs),
+                        None => diffs.push("channel(missing-in-twin)".into()),
+                    }
+                }
+                for k in twin_b.channels.keys() {
+                    if !live.channels.contains_key(k) {
+                        diffs.push("channel(only-in-twin)".into());
+                    }
+                }
+                diff_values("tracker", &live.tracker, &twin_b.tracker, &mut diffs);
+                for key in ["allowlist", "invoices", "dbid_high_water_mark"] {
+                    diff_values(&format!("node.{}", key), &live.node[key], &twin_b.node[key], &mut diffs);
+                }
+                if let Some(d) = diffs.first() {
+                    ctx.report(st, Violation::new(
+                        format!("C11:not-durable-in-backup:{}:{}", r.kind, strip_ids(d)),
+                        format!("step {} {:?} ({}): a signer restored from the BACKUP store alone differs from the running signer in {:?}", i, op, r.tag, diffs),
+                    ))?;
+                    st.class("history_truncated_after_known_finding");
+                    m.dead = true;
+                    break;
+                }
             }
             // what did this request change?
             let mut changed: Vec<String> = vec![];
